@@ -319,13 +319,23 @@ def pair_loop(mc, o):
     nexts = [s_ for s_ in subterms(key) if s_[0] == "call" and s_[1].endswith("Iterator::next")]
     if not nexts:
         return False
-    if o.get("path") and o["path"][-1][2] == "closure" and len(o["path"]) == 1:
+    if o.get("path") and o["path"][-1][2] == "closure":
         # closure form: the save sits in the closure given to for_each / try_for_each over the
         # collected vector, on every success path of that closure (an Err aborts the migration)
         from engine.analysis import must_pass, Ctx as _C
         cb = body.prog.body(o["fn"])
-        drivers = [a for bi, t, a in call_sites(mc, lambda nm: nm.endswith(("Iterator::for_each", "Iterator::try_for_each"))) if len(a) == 2 and a[1][0] == "closure" and a[1][1] == o["fn"] and norm(a[0]) == norm(nexts[0][2][0])]
-        return cb is not None and len(drivers) == 1 and must_pass(_C(cb), o["bb"])
+        # the context that creates the closure: the migration function itself or a helper it calls
+        from engine.analysis import inline_walk as _iw
+        drivers = []
+        for c_, p_ in _iw(body.prog, mc, 2):
+            if c_.body.key != o["path"][-1][0]:
+                continue
+            drivers += [(c_, bi, a) for bi, t, a in call_sites(c_, lambda nm: nm.endswith(("Iterator::for_each", "Iterator::try_for_each"))) if len(a) == 2 and a[1][0] == "closure" and a[1][1] == o["fn"] and norm(a[0]) == norm(nexts[0][2][0])]
+        if len(drivers) != 1 or cb is None or not must_pass(_C(cb), o["bb"]):
+            return False
+        # and the driving call is on every success path of its function, which is called on every success path of the migration
+        dc_, dbi, _ = drivers[0]
+        return must_pass(dc_, dbi) and (len(o["path"]) == 1 or must_pass(mc, o["root_bb"]))
     heads = [bi for bi, t, a in call_sites(mc, lambda nm: nm == "std::iter::Iterator::next") if norm(mc.T.call_term(t, bi)) == norm(nexts[0])]
     if len(heads) != 1:
         return False
